@@ -691,6 +691,33 @@ class Evolve:
                     return q
                 q = parents.get(id(q))
             return None
+        # later-introduced functions whose result or effect can reach pinned code (called, transitively, from a
+        # function of the pinned version - in this module or a sibling) are NOT mere accessors
+        newfns = {n.name: n for n in ast.walk(self.tree) if isinstance(n, ast.FunctionDef) and n.name not in self.base_fn
+                  and not (n.name.startswith("__") and n.name.endswith("__"))}
+        live_new = set()
+        work = []
+        for n in ast.walk(self.tree):
+            if isinstance(n, ast.FunctionDef) and n.name not in newfns:
+                work.append(n)
+        seen_f = set()
+        while work:
+            f_ = work.pop()
+            if id(f_) in seen_f:
+                continue
+            seen_f.add(id(f_))
+            for c_ in ast.walk(f_):
+                nm_ = None
+                if isinstance(c_, ast.Call):
+                    nm_ = c_.func.attr if isinstance(c_.func, ast.Attribute) else c_.func.id if isinstance(c_.func, ast.Name) else None
+                elif isinstance(c_, ast.Attribute) and isinstance(c_.ctx, ast.Load):
+                    nm_ = c_.attr        # property access / bound method taken as a value
+                if nm_ in newfns and nm_ not in live_new:
+                    live_new.add(nm_)
+                    work.append(newfns[nm_])
+        for nm_ in newfns:
+            if re.search(r"\b%s\b" % re.escape(nm_), sib):
+                live_new.add(nm_)
         dead = set()
         for a in stored:
             if re.search(r"\b%s\b" % re.escape(a), sib):
@@ -713,7 +740,7 @@ class Evolve:
                         q = enclosing(q, (ast.Call,))
                     if in_log:
                         continue
-                    if fd is not None and fd.name not in self.base_fn and not (fd.name.startswith("__") and fd.name.endswith("__")):
+                    if fd is not None and fd.name in newfns and fd.name not in live_new:
                         continue
                     ok = False
                     break
